@@ -58,8 +58,15 @@ let snapshot (st : state) : string array =
      (match st.sfile with None -> "nofile" | Some s -> show_store s);
      (match ss with [] -> "-" | l -> String.concat "+" l);
      (match st.lock with None -> "-" | Some o -> show_sid o);
-     show_versions st.vmem; show_versions st.vfiles; decimal_of_n st.next_id |]
-let comp_names = [| "R"; "S"; "F"; "C"; "L"; "V"; "W"; "N" |]
+     show_versions st.vmem; show_versions st.vfiles; decimal_of_n st.next_id;
+     (match st.frr with
+      | None -> "none"
+      | Some d ->
+        let proto (s : store) : store =
+          let keep p = (match p with x :: _ -> seg_name x = "protocols" | [] -> false) in
+          { leaves = List.filter (fun (p, _) -> keep p) s.leaves; conts = List.filter keep s.conts } in
+        if show_store (proto d) = show_store (proto st.running) then "run" else "other") |]
+let comp_names = [| "R"; "S"; "F"; "C"; "L"; "V"; "W"; "N"; "D" |]
 let show_res = function
   | RId x -> show_sid x | ROk -> "ok" | RLocked -> "locked" | RNoSession -> "nosession" | RNoHandler -> "nohandler"
   | RInvalid -> "invalid" | RSetFail -> "setfail" | RCycle -> "cycle" | RDepMissing -> "depmissing" | RDepErr -> "deperr"
@@ -68,7 +75,7 @@ let show_res = function
   | RBadVersion -> "badversion" | RBadVerType -> "badvertype" | RNotImpl -> "notimpl" | RModelFuel -> "MODELFUEL"
 let show_ev = function
   | EApply (p, v, ok) -> (if ok then "A:" else "A!") ^ string_of_path p ^ "=" ^ token_of_value v
-  | ERollback (p, v) -> "R:" ^ string_of_path p ^ "=" ^ token_of_value v
+  | ERollback (p, v, ok) -> (if ok then "R:" else "R!") ^ string_of_path p ^ "=" ^ token_of_value v
   | EFrrTest -> "F:test"
   | EFrrReload -> "F:reload"
 let csv_nats (s : string) : nat list =
@@ -76,7 +83,7 @@ let csv_nats (s : string) : nat list =
 let kind_of = function "A" -> KAny | "I" -> KInt | "U" -> KU32 | "S" -> KStr | "B" -> KBool | "N" -> KInternal | _ -> failwith "kind"
 (* concurrent mode: search for a sequential order of the threads' operations that explains every
    observed result and the final state (linearizability w.r.t. the model) *)
-let run_conc (var : variant) reg g init_store (f : string array) (p0 : int) (impl : string) : string =
+let run_conc (var : variant) reg g init_st (f : string array) (p0 : int) (impl : string) : string =
   if p0 + 1 >= Array.length f || f.(p0) <> "threads" then "badline" else begin
     let nt = int_of_string f.(p0 + 1) in
     let scripts = Array.make nt [] in
@@ -155,7 +162,7 @@ let run_conc (var : variant) reg g init_store (f : string array) (p0 : int) (imp
             done;
             !found
           end in
-        if go (init_state init_store) (Array.make nt 0) (Array.make nt N0) [] then impl
+        if go (init_st) (Array.make nt 0) (Array.make nt N0) [] then impl
         else if !budget < 0 then "SEARCH-BUDGET-EXHAUSTED"
         else "NOT-LINEARIZABLE"
       end
@@ -176,35 +183,49 @@ let run_case (var : variant) (line0 : string) (impl : string) : string =
       p := !p + 5
     done;
     let reg = List.rev !reg in
-    let g =
+    let mss =
       if !p < Array.length f && f.(!p) = "guard" then begin
         let ifn = f.(!p + 1) and mru = int_of_string f.(!p + 2) in
         p := !p + 3;
         let cp = [intern "interfaces"; intern ifn] in
         Some ((cp, cp @ [intern "mtu"]), z_of_string (string_of_int (mru + 12)))
       end else None in
+    if !p < Array.length f && f.(!p) = "deep" then p := !p + 2;
+    let shared = ref false in
+    if !p < Array.length f && f.(!p) = "plugin" then begin
+      shared := (f.(!p + 1) = "prod"); p := !p + 4 end;
+    (* "init e1,e2,...": the projection of the initial running configuration *)
     let init_store =
-      if !p < Array.length f && f.(!p) = "plugin" then begin
-        let msg = (match value_of_token f.(!p + 2) with VStr l -> l | _ -> []) and lim = z_of_string f.(!p + 3) in
-        p := !p + 4;
-        let str s = List.init (String.length s) (fun i -> n_of_int (Char.code s.[i])) in
-        let ps = path_of_string in
-        { leaves = [ (ps "interfaces.eth0.name", SStr (str "eth0"));
-                     (ps "interfaces.eth0.description", SStr (str "Management Interface"));
-                     (ps "interfaces.eth0.enabled", SBool true) ]
-                   @ (if msg = [] then [] else [ (ps "verif.c13.message", SStr msg) ])
-                   @ (if lim = Z0 then [] else [ (ps "verif.c13.limit", SInt lim) ]);
-          conts = [ ps "interfaces"; ps "interfaces.eth0"; ps "verif.c13" ] }
+      if !p + 1 < Array.length f && f.(!p) = "init" then begin
+        let es = String.split_on_char ',' f.(!p + 1) in
+        p := !p + 2;
+        let lv = ref [] and cs = ref [] in
+        List.iter (fun e ->
+            if e <> "" then begin
+              if e.[String.length e - 1] = '/' then cs := path_of_string (String.sub e 0 (String.length e - 1)) :: !cs
+              else begin
+                let i = String.rindex e '=' in
+                let pth = path_of_string (String.sub e 0 i) and v = String.sub e (i + 1) (String.length e - i - 1) in
+                let sv = (match value_of_token v with
+                    | VInt z -> SInt z | VU32 z -> SInt z | VStr l -> SStr l | VBool b -> SBool b) in
+                lv := (pth, sv) :: !lv
+              end
+            end) es;
+        { leaves = List.rev !lv; conts = List.rev !cs }
       end else empty_store in
+    let hidden = Hashtbl.fold (fun name i acc -> if String.length name > 0 && name.[0] = '~' then n_of_int i :: acc else acc) tbl [] in
+    let g = { g_mss = mss; g_sv = intern "svlan"; g_cv = intern "cvlan"; g_hidden = hidden;
+              g_sa = intern "~subscriberaccess" } in
+    let init_st = init_state_gen init_store !shared in
     if conc then begin
       let reps = Str.split (Str.regexp_string " || ") impl in
-      let outs = List.map (fun r -> run_conc var reg g init_store f !p r) reps in
+      let outs = List.map (fun r -> run_conc var reg g init_st f !p r) reps in
       if reps <> [] && List.for_all2 (fun a b -> a = b) reps outs then impl
       else (try List.find (fun o -> o = "NOT-LINEARIZABLE") outs with Not_found -> String.concat " || " outs)
     end else
     if !p >= Array.length f || f.(!p) <> "ops" then "badline" else begin
       incr p;
-      let st = ref (init_state init_store) in
+      let st = ref (init_st) in
       let prev = ref (snapshot !st) in
       let out = ref [] in
       let sid t = if t = "@" then (match !st.lock with Some o -> o | None -> !st.next_id) else n_of_decimal t in
@@ -224,7 +245,10 @@ let run_case (var : variant) (line0 : string) (impl : string) : string =
             let k = int_of_string (String.sub ft 0 i) in
             let fl = String.sub ft (i + 1) (String.length ft - i - 1) in
             let has c = String.contains fl c in
-            let o = OCommit (sid f.(!p + 1), { f_apply = nat_of_int k; f_test = has 't'; f_reload = has 'r';
+            let rbk = (match String.index_opt fl 'q' with
+                | Some j when j + 1 < String.length fl -> Char.code fl.[j + 1] - 48 | _ -> 0) in
+            let o = OCommit (sid f.(!p + 1), { f_apply = nat_of_int k; f_rollback = nat_of_int rbk; f_test = has 't';
+                                               f_reload = nat_of_int (if has 'R' then 2 else if has 'r' then 1 else 0);
                                                f_startup = has 's'; f_version = has 'v' }) in
             p := !p + 3; o
           | _ -> failwith "bad op" in
@@ -245,7 +269,8 @@ let () =
   let lines = read_lines Sys.argv.(1) in
   let var = if Array.length Sys.argv > 3 then
       (match Sys.argv.(3) with
-       | "defective" -> defective | "persist_defect" -> persistDefect | "set_defect" -> setDefect | _ -> repaired)
+       | "defective" -> defective | "persist_defect" -> persistDefect | "set_defect" -> setDefect
+       | "frr_defect" -> frrDefect | _ -> repaired)
     else repaired in
   let impls = if Array.length Sys.argv > 2 && Sys.argv.(2) <> "-" then read_lines Sys.argv.(2) else [] in
   let impls = Array.of_list impls in
